@@ -55,6 +55,8 @@ pub enum Op {
     CreateDir(String, bool),
     WriteArchive(String, bool),
     WriteTextArchive(String, bool),
+    /// write_text_archive of an archive that was PARSED and not edited (dirty flag clear)
+    WriteCleanTextArchive(String, bool),
 }
 
 pub struct Config {
@@ -310,6 +312,8 @@ fn list_in(tree: &Tree, dir: &str, glob: Option<&str>) -> BTreeSet<String> {
             None | Some("**/*") => true,
             Some("*") => direct,
             Some("*.bin") => direct && last.ends_with(".bin"),
+            // a pattern that starts with a literal directory: the direct children of dir/e
+            Some("e/*") => rel.starts_with("e/") && !rel[2..].contains('/') && rel.len() > 2,
             Some("**/*.txt") => last.ends_with(".txt"),
             Some(other) => panic!("glob {} not in the family", other),
         };
@@ -395,6 +399,10 @@ impl Sys {
                 }
                 w.fs.write_text_archive(p, &t, *loc).map_err(|e| e.to_string())
             }
+            Op::WriteCleanTextArchive(p, loc) => {
+                let t = TextArchive::from_bytes(&self.cfg.text_archive_bytes(), self.cfg.text_format(), arch::endian(self.cfg.endian())).map_err(|e| e.to_string())?;
+                w.fs.write_text_archive(p, &t, *loc).map_err(|e| e.to_string())
+            }
         }
     }
     /// Model of one call on the on-disk top layer. On success returns, for calls that must
@@ -405,7 +413,7 @@ impl Sys {
             Op::Write(p, pi, loc) => (p, *loc, Some(self.cfg.payloads()[*pi].clone())),
             Op::CreateDir(p, loc) => (p, *loc, None),
             Op::WriteArchive(p, loc) => (p, *loc, Some(arch::build(&self.cfg.small_archive(), None).and_then(|x| x.serialize().map_err(|e| e.to_string())).map_err(|_| ())?)),
-            Op::WriteTextArchive(p, loc) => (p, *loc, Some(self.cfg.text_archive_bytes())),
+            Op::WriteTextArchive(p, loc) | Op::WriteCleanTextArchive(p, loc) => (p, *loc, Some(self.cfg.text_archive_bytes())),
         };
         let a = self.actual(p, loc).ok_or(())?;
         match payload {
@@ -706,7 +714,7 @@ impl Sys {
     fn observe_c13(&self, w: &World, top: &Tree, out: &mut Vec<(String, String)>) {
         let layers = self.layers_for(top);
         let dirs = ["", "d", "d/", "d/e", "nope", "a", "t"];
-        let globs: [Option<&str>; 5] = [None, Some("*"), Some("*.bin"), Some("**/*.txt"), Some("**/*")];
+        let globs: [Option<&str>; 6] = [None, Some("*"), Some("*.bin"), Some("**/*.txt"), Some("**/*"), Some("e/*")];
         let mut seen = std::collections::HashSet::new();
         for dir in dirs {
             for loc in [false, true] {
@@ -759,6 +767,7 @@ impl System for Sys {
         v.push(Op::WriteArchive("d/a".into(), false));
         v.push(Op::WriteArchive(format!("d/b{}", self.cfg.sfx()), true));
         v.push(Op::WriteTextArchive("d/e/c".into(), false));
+        v.push(Op::WriteCleanTextArchive("d/e/c".into(), true));
         v
     }
     fn step(&self, s: &St, _history: &[Op], op: &Op) -> Step<St> {
@@ -769,6 +778,7 @@ impl System for Sys {
             Op::CreateDir(..) => "create_dir",
             Op::WriteArchive(..) => "write_archive",
             Op::WriteTextArchive(..) => "write_text_archive",
+            Op::WriteCleanTextArchive(..) => "write_text_archive(clean)",
         };
         let mut wit = 0u64;
         // witnesses
@@ -788,7 +798,7 @@ impl System for Sys {
         }
         // paths touched by the call, for the same-instance observers
         let op_path: &str = match op {
-            Op::Write(p, _, _) | Op::CreateDir(p, _) | Op::WriteArchive(p, _) | Op::WriteTextArchive(p, _) => p,
+            Op::Write(p, _, _) | Op::CreateDir(p, _) | Op::WriteArchive(p, _) | Op::WriteTextArchive(p, _) | Op::WriteCleanTextArchive(p, _) => p,
         };
         let mut related_dirs: Vec<String> = vec![String::new()];
         {
@@ -797,7 +807,7 @@ impl System for Sys {
                 related_dirs.push(cs[..i].join("/"));
             }
         }
-        let globs: [Option<&str>; 5] = [None, Some("*"), Some("*.bin"), Some("**/*.txt"), Some("**/*")];
+        let globs: [Option<&str>; 6] = [None, Some("*"), Some("*.bin"), Some("**/*.txt"), Some("**/*"), Some("e/*")];
         let r = util::catch(|| -> Result<(Result<(), String>, Vec<Tree>, Vec<(String, String)>), String> {
             let w = self.build_world(&s.top)?;
             // queries BEFORE the call on the same instance (a cache filled here must not go stale)
@@ -984,6 +994,8 @@ fn lower_choices(probe: &Config) -> Vec<(&'static str, Tree)> {
     // "a" holds exactly payload 1 ([7]): writing the same bytes on top must still create the file
     v.push(("a", [("a".to_string(), file(&[7]))].into_iter().collect()));
     v.push(("a+d/a", [("a".to_string(), file(b"lowA")), ("d".to_string(), Node::Dir), ("d/a".to_string(), file(&[7])), ("d/x.bin".to_string(), file(b"x")), ("d/y.txt".to_string(), file(b"y")),
+        // names that differ from the patterns' letters in case only (matching is case-sensitive)
+        ("d/UPPER.BIN".to_string(), file(b"U")), ("d/Y.TXT".to_string(), file(b"Y")), ("d/E".to_string(), Node::Dir), ("d/E/in.bin".to_string(), file(b"e")),
         // siblings whose names extend a directory name with characters that sort below '/':
         // string order and path-component order differ on them
         ("d-old".to_string(), file(b"o")), ("d.bin".to_string(), file(b"b")), ("d e".to_string(), Node::Dir), ("d e/f".to_string(), file(b"f"))].into_iter().collect()));
